@@ -1,5 +1,7 @@
 import HdVerif.Model.TilingSlide
 import HdVerif.Proofs.TilingHelpers
+import HdVerif.Proofs.TilingRegion
+import HdVerif.Proofs.TilingStd
 import Mathlib.Tactic.LinearCombination
 import Mathlib.Tactic.Ring
 /-! C12: the per-frame plane positions (`compute_plane_position_slide_per_frame`), the inverse of the frame numbering, and
@@ -213,6 +215,36 @@ theorem tiledFullLut_agrees_with_slidePerFrame (channels : List (Option Int)) (p
       subst hrow
       simp only at hn ⊢
       exact ⟨hn.2.2, hn.2.1, by omega⟩
+
+
+/-! ## A tile cut with `get_tile_array` is the region read at the tile's place -/
+
+/-- For a tile position inside the matrix, the array `get_tile_array` cuts there (without its zero padding) and the region
+`[ro, min(ro + tr, R + 1)) × [co, min(co + tc, C + 1))` read back through the frame table of ANY complete tiling of the same
+matrix (any tile size `th × tw`, any frame order) are the same pixels. -/
+theorem tile_equals_region {α} (z : α) (M : Img α) (lut : List LutRow) (frames : List (Img α)) (R C th tw tr tc ro co : Int)
+    (ht : 1 ≤ th) (hw : 1 ≤ tw) (hr : 1 ≤ tr) (hc : 1 ≤ tc)
+    (hg : IsGridTable R C th tw lut) (hcut : TableCutFrom M R C th tw lut frames)
+    (h1 : 1 ≤ ro) (h2 : ro ≤ R) (h3 : 1 ≤ co) (h4 : co ≤ C) (full am : Bool) :
+    ∃ fr out, getTileArray z M R C ro co tr tc = .ok fr ∧
+      readRegion z lut frames R C th tw none (some ro) (some (min (ro + tr) (R + 1))) (some co) (some (min (co + tc) (C + 1)))
+        false full am = .ok (min (ro + tr) (R + 1) - ro, min (co + tc) (C + 1) - co, out) ∧
+      ∀ a b, 0 ≤ a → a < min (ro + tr) (R + 1) - ro → 0 ≤ b → b < min (co + tc) (C + 1) - co → out a b = fr a b := by
+  obtain ⟨fr, hfr, hspec⟩ := getTileArray_spec z M R C ro co tr tc hr hc h1 h2 h3 h4
+  have hstd : stdRowColIndices (some ro) (some (min (ro + tr) (R + 1))) (some co) (some (min (co + tc) (C + 1))) R C false false =
+      .ok (ro, min (ro + tr) (R + 1), co, min (co + tc) (C + 1)) := by
+    rw [stdRowCol_ok_iff]
+    have e0 : outShift false = 0 := rfl
+    rw [e0]
+    refine ⟨?_, ?_, ?_, ?_⟩
+    · unfold normStart; simp only; grind
+    · unfold normEnd; simp only; grind
+    · unfold normStart; simp only; grind
+    · unfold normEnd; simp only; grind
+  obtain ⟨out, hout, hpix⟩ := readRegion_grid z M lut frames R C th tw ht hw hg hcut _ _ _ _ false full am _ _ _ _ hstd (by omega) (by omega)
+  refine ⟨fr, out, hfr, hout, ?_⟩
+  intro a b ha0 ha1 hb0 hb1
+  rw [hpix a b ha0 ha1 hb0 hb1, hspec a b ha0 (by omega) hb0 (by omega), if_pos (by omega)]
 
 
 end HdVerif.TilingLemmas
